@@ -11,7 +11,7 @@ import numpy as np
 from mc.mdp import reward_table
 from mc.policies import default_LP0, default_V
 
-BOX_KINDS = ("box", "boxvec")
+BOX_KINDS = ("box", "boxvec", "boxhalf")  # boxhalf: Box(-1, inf): bounded on one side only
 
 
 # ---------------------------------------------------------------------------------------
@@ -21,7 +21,7 @@ def action_index_np(action, act_kind):
     a = np.asarray(action)
     if act_kind == "discrete":
         return a.astype(int)
-    if act_kind == "box":
+    if act_kind in ("box", "boxhalf"):
         return (a >= 0).astype(int)
     if act_kind == "boxvec":
         return (a[..., 0] >= 0).astype(int)
@@ -32,7 +32,7 @@ def action_term_np(action, act_kind):
     a = np.asarray(action, dtype=np.float64)
     if act_kind == "discrete":
         return np.zeros(a.shape)
-    if act_kind == "box":
+    if act_kind in ("box", "boxhalf"):
         return a / 16.0
     if act_kind == "boxvec":
         return a[..., 0] / 16.0 + a[..., 1] / 64.0
@@ -40,6 +40,8 @@ def action_term_np(action, act_kind):
 
 
 def clip_np(action, act_kind):
+    if act_kind == "boxhalf":
+        return np.maximum(np.asarray(action, dtype=np.float64), -1.0)
     if act_kind in BOX_KINDS:
         return np.clip(np.asarray(action, dtype=np.float64), -1.0, 1.0)
     return np.asarray(action)
@@ -49,7 +51,7 @@ def penalty_np(action, act_kind):
     a = np.asarray(action, dtype=np.float64)
     if act_kind == "discrete":
         return a * 0.5
-    if act_kind == "box":
+    if act_kind in ("box", "boxhalf"):
         return 0.25 * (a - 0.5) ** 2
     if act_kind == "boxvec":
         return 0.25 * (a[..., 0] - 0.5) ** 2 + 0.0625 * (a[..., 1] + 0.5) ** 2
@@ -118,7 +120,8 @@ def gae_np(rewards, values, dones, last_value, gamma, lam):
 def close(x, y, tol=1e-5):
     x = np.asarray(x, dtype=np.float64)
     y = np.asarray(y, dtype=np.float64)
-    return np.abs(x - y) <= tol * np.maximum(1.0, np.abs(y))
+    with np.errstate(invalid="ignore"):  # inf - inf: not close
+        return np.abs(x - y) <= tol * np.maximum(1.0, np.abs(y))
 
 
 # ---------------------------------------------------------------------------------------
